@@ -273,6 +273,11 @@ class Explorer(object):
             for n, f in m.funcs.items():
                 self.funcs[n] = f
         self.inline = set(inline)
+        # the thorough tier unrolls every loop once more
+        import os as _os
+        if _os.environ.get('LCVERIF_TIER') == 'thorough' and max_visits == 2:
+            max_visits = 3
+            max_paths = max_paths * 20
         self.max_paths = max_paths
         self.max_visits = max_visits
         self.max_depth = max_depth
